@@ -25,7 +25,7 @@ for (fid, commit), props in seen.items():
         for p in props:
             if p not in claimed:
                 res.append(f"{p}: not claimed yet"); continue
-            rr = sh(f"cd /verif && VERIF_REPO={wt} ./check {p} --no-audit")
+            rr = sh(f"cd /verif && VERIF_REPO={wt} VERIF_OUT=/tmp/revdrill-out ./check {p} --no-audit")
             v = [l for l in rr.stdout.splitlines() if "VIOLATION" in l]
             res.append(f"{p}: " + ("caught" + (" (no-failing-input-found)" if v and "no-failing-input-found" in v[0] else "") if v else "MISSED"))
         print(f"| {fid} | {commit} | " + "; ".join(res) + " |")
